@@ -1,7 +1,7 @@
 (* C36 -- Contour tracing and drawing stay on the image.
    Only statements; every proof is `exact <lemma>`.  Models: Draw.v, Contours.v. *)
 From RV Require Import Prelude.
-From ImageProc Require Import Draw Draw_proofs Contours Contours_proofs Contours_bounded.
+From ImageProc Require Import Draw Draw_proofs DrawCases DrawCases_proofs Contours Contours_proofs Contours_bounded.
 Open Scope Z_scope.
 
 (* ---------------- drawing (all inputs) ---------------- *)
@@ -32,11 +32,7 @@ Theorem C36_draw_line_in_image : forall h w s e,
       (0 <= py p < h /\ 0 <= px p < w) /\
       (Z.min (py s) (py e) <= py p <= Z.max (py s) (py e) /\
        Z.min (px s) (px e) <= px p <= Z.max (px s) (px e)).
-Proof.
-  intros h w s e Hh Hw. destruct (draw_line_in_image h w s e Hh Hw) as (l & E & H).
-  exists l. split; [exact E|]. intros p Hp. destruct (H p Hp) as [Hi Hb].
-  split; [apply in_image_spec; exact Hi|exact Hb].
-Qed.
+Proof. exact draw_line_in_image_spec. Qed.
 
 (* (4) fill_rect never panics and writes exactly the pixels of rect /\ image *)
 Theorem C36_fill_rect_writes : forall h w r,
@@ -44,11 +40,7 @@ Theorem C36_fill_rect_writes : forall h w r,
     forall p, In p l <->
       ((r_top r <= py p < r_bottom r /\ r_left r <= px p < r_right r) /\
        (0 <= py p < h /\ 0 <= px p < w)).
-Proof.
-  intros h w r. destruct (fill_rect_writes h w r) as (l & E & H).
-  exists l. split; [exact E|]. intros p. rewrite H, in_image_spec.
-  unfold in_rect. rewrite !andb_true_iff, !Z.leb_le, !Z.ltb_lt. tauto.
-Qed.
+Proof. exact fill_rect_writes_spec. Qed.
 
 (* (5) stroke_rect never panics; it writes only pixels of rect /\ image that are not in the
    rect shrunk by the border width, and nothing for width <= 0 *)
@@ -59,13 +51,7 @@ Theorem C36_stroke_rect_writes : forall h w r wd,
       (r_top r <= py p < r_bottom r /\ r_left r <= px p < r_right r) /\
       ~ (r_top r + wd <= py p < r_bottom r - wd /\ r_left r + wd <= px p < r_right r - wd) /\
       0 < wd.
-Proof.
-  intros h w r wd. destruct (stroke_rect_writes h w r wd) as (l & E & H).
-  exists l. split; [exact E|]. intros p Hp. destruct (H p Hp) as (Hi & Hr & Hn & Hw).
-  split; [apply in_image_spec; exact Hi|].
-  revert Hr Hn. unfold in_rect, stroke_inner; cbn.
-  rewrite !andb_true_iff, !andb_false_iff, !Z.leb_le, !Z.ltb_lt, !Z.leb_gt, !Z.ltb_ge. lia.
-Qed.
+Proof. exact stroke_rect_writes_spec. Qed.
 
 (* (6) draw_polygon with width 1 never panics; every written pixel is inside the image and
    inside the bounding box of one edge, whose end points are vertices of the polygon *)
@@ -77,12 +63,23 @@ Theorem C36_draw_polygon_in_image : forall h w pts,
       exists a b, In a pts /\ In b pts /\
         Z.min (py a) (py b) <= py p <= Z.max (py a) (py b) /\
         Z.min (px a) (px b) <= px p <= Z.max (px a) (px b).
-Proof.
-  intros h w pts Hh Hw. destruct (draw_polygon_in_image h w pts Hh Hw) as (l & E & H).
-  exists l. split; [exact E|]. intros p Hp. destruct (H p Hp) as (Hi & (e & He & Hb)).
-  split; [apply in_image_spec; exact Hi|].
-  destruct (edges_vertices pts e He) as [Ha Hb']. exists (fst e), (snd e). auto.
-Qed.
+Proof. exact draw_polygon_in_image_spec. Qed.
+
+(* (6b) the link between the model and the oracle of the correspondence check: whatever a
+   modelled primitive (fill_rect, stroke_rect, draw_line / draw_polygon / Painter with width 0
+   or 1) does, for ANY shape and image size, it is not a panic and passes `writes_ok`: every
+   written pixel is inside the image and inside the bounds of the shape *)
+Theorem C36_model_satisfies_oracle : forall h w pr out,
+  0 <= h -> 0 <= w -> model_draw h w pr = Some out ->
+  exists l, out = Writes l /\ writes_ok h w pr l = true.
+Proof. exact model_satisfies_oracle. Qed.
+
+(* (6c) what the oracle applied to the implementation's outcome means *)
+Theorem C36_oracle_spec : forall c,
+  prop_ok_draw c = true <->
+  exists l, d_impl c = Some l /\ d_guard c = true /\
+    forall p, In p l -> (0 <= py p < d_h c /\ 0 <= px p < d_w c) /\ in_bounds (d_prim c) p = true.
+Proof. exact prop_ok_draw_spec. Qed.
 
 (* non-vacuity: a line that leaves the image, a rect that leaves the image *)
 Example C36_nonvacuous_draw :
@@ -93,7 +90,7 @@ Proof. repeat split; vm_compute; reflexivity. Qed.
 
 (* ---------------- contours (bounded: every mask of at most 4 rows and 4 columns) ---------------- *)
 
-(* (7) For ALL binary masks with at most 4 rows and at most 4 columns (all 75 000+ of them, by
+(* (7) For ALL binary masks with at most 4 rows and at most 4 columns (all 74 963 of them, by
    exhaustive evaluation inside the kernel, the enumeration being proved complete), and both
    retrieval modes: border following terminates (the fuel is not exhausted) without a panic;
    every point of every returned contour is a foreground pixel that has a background pixel or
